@@ -5,6 +5,12 @@ open GoSQLXModel
 #print axioms ExprParse.parse_render
 #print axioms ExprParse.paren_left
 #print axioms ExprParse.paren_right
+#print axioms ExprParse.paren_pred
+#print axioms ExprParse.paren_pattern
+#print axioms ExprParse.print_stable
+#print axioms ExprParse.toEx_kwNorm
+#print axioms ExprParse.wf_kwNorm
+#print axioms Props.C06.second_writing_is_the_first
 #print axioms Props.C06.gen_prec_table
 #print axioms Props.C06.written_expression_reads_back
 #print axioms Props.C06.serialiser_writes_reference_rendering
